@@ -67,8 +67,18 @@ def load_variants():
 def run_variant(v):
     scratch = make_scratch()
     try:
-        for e in v["edits"]:
+        for e in v.get("edits", []):
             apply_edit(scratch, e["file"], e["old"], e["new"], e.get("count", 1))
+        if v.get("revert"):
+            # undo a `fix:` commit of /repo (found by its subject) in the scratch copy
+            h = subprocess.check_output(["git", "-C", REPO, "log", "--format=%H", "--grep", v["revert"], "-F", "-1"],
+                                        text=True).strip()
+            if not h:
+                raise RuntimeError("no commit with subject containing %r" % v["revert"])
+            d = subprocess.check_output(["git", "-C", REPO, "show", "--format=", h], text=True)
+            r = subprocess.run(["patch", "-R", "-p1", "-s", "-d", scratch], input=d, text=True, capture_output=True)
+            if r.returncode != 0:
+                raise RuntimeError("cannot revert %s in scratch: %s" % (h[:8], r.stdout + r.stderr))
         code, out = run_check(v["property"], scratch)
         if v["kind"] == "seeded":
             ok = code == 1 and all(re.search(x, out) for x in v.get("expect", []))
